@@ -3282,7 +3282,7 @@ class ContractionTree:
         fn = self.get_contractor(
             order=order,
             prefer_einsum=prefer_einsum,
-            strip_exponent=strip_exponent is not False,
+            strip_exponent=bool(strip_exponent),
             implementation=implementation,
             autojit=autojit,
             check_zero=check_zero,
